@@ -728,6 +728,7 @@ def describe(prop):
             "reference: own closed forms for steepness, exact conditional law of Tz given Hs by change of variables, Hs given Tz by quadrature on a 60000-point grid",
             "the sampler's documented design is respected: domain (0, 100), joint density below 1e-7 ignored; the designed-away mass m0 is added to every tolerance and conditioning values with m0 > 1 % or support beyond 100 are not judged",
             "DKW at error probability 1e-12 per comparison; tail-coverage bound (F(max)/F(c*))^n < 1e-12",
+            'with a seed every entry of a batch of conditional quantiles equals the result of asking for it alone',
         ],
-        "probes": ["empirical-cdf-after-refit", "cached-sample-checked-after-other-operations", "small-conditional-samples-pooled", "empirical-cdf-with-caller-sample"],
+        "probes": ["empirical-cdf-after-refit", "cached-sample-checked-after-other-operations", "small-conditional-samples-pooled", "empirical-cdf-with-caller-sample", "another-model-asked-first-at-the-same-conditioning-value", "empirical-cdf-with-refilled-buffer", "cdf-of-a-modified-deep-copy", "integer-typed-conditioning-value"],
     }
